@@ -111,6 +111,11 @@ def run(ctx):
     # carry over from one analysis to the next (the second loop writes its guard: not a counted loop)
     pool.append('int f(int n,int x,int y){ int i; for (i = 0; i < n; i++) { x = x + y; } }')
     pool.append('int f(int n,int x,int y){ int i; for (i = 0; i < n; i++) { n = x + y; } }')
+    # the same failing loop in functions of different degree (anything remembered per set of failing choices
+    # must not be reused for a vector of another length)
+    pool.append('int f(int y1,int y2,int r){ while (r < 1) { y2 = y1 + y1; } }')
+    pool.append('int f(int y1,int y2,int r){ while (r < 1) { y2 = y1 + y1; } r = y2 + y2; }')
+    pool.append('int f(int X1,int X2,int X3,int X4,int X5,int X6){ while (X1 < 10) { X1 = X2 + X3; } X4 = X5 + X6; }')
     # sugar that the analysis rewrites on the fly (must happen on copies, never in the caller's tree)
     pool.append('int f(int x,int y,int z){ y = (int)(x * z); while (x < 1) { x = (long)y; z = -x; y = x++; } }')
     pool.append('int f(int x,int y){ x = (int)(long)(y + y); y = !x; L1: x = +y; }')
